@@ -19,6 +19,14 @@ def boundary_ns(rng):
     k = rng.randrange(8)
     if k == 0:
         return rng.choice([0, 1, 999999999, 10 ** 9, 86400 * 10 ** 9 - 1, 86400 * 10 ** 9, NS_2262 - 1])
+    if k == 1 and rng.random() < 0.4:
+        # the last days of February and the first of March, in leap years, century years and ordinary years
+        y = rng.choice([1972, 2000, 2000, 2024, 2100, 2096, 2200, 2261, 1999, 2400 - 200])
+        leap = y % 4 == 0 and (y % 100 != 0 or y % 400 == 0)
+        day = rng.choice([27, 28] + ([29] if leap else []))
+        d = datetime.datetime(y, 2, day) - datetime.datetime(1970, 1, 1)
+        base = int(d.total_seconds()) + rng.choice([0, 1, 43200, 86399, 86400, 86401, 2 * 86400 - 1, 2 * 86400])
+        return min(NS_2262 - 1, base * 10 ** 9 + rng.choice([0, 1, 999999999, rng.randrange(10 ** 9)]))
     if k == 1:
         y = rng.choice([1972, 2000, 2024, 2100, 2096, 2200, 2261, 1999])
         d = datetime.datetime(y, rng.choice([2, 3, 12, 1]), rng.choice([28, 1, 31 if False else 27])) - datetime.datetime(1970, 1, 1)
@@ -67,6 +75,28 @@ def expected_fields(ns):
     return '%04d-%02d-%02d %02d:%02d:%02d.%09d' % (dt.year, dt.month, dt.day, dt.hour, dt.minute, dt.second, nsec)
 
 
+def oracle_text(fmt, ns, tz, zone_name, utc):
+    """what the date format must print for the instant `ns` (python's proleptic Gregorian calendar), zone offset `tz`:
+    the documented fields; anything else as it stands"""
+    shifted = ns + (0 if utc else tz * 10 ** 9)
+    sec, nsec = divmod(shifted, 10 ** 9)
+    dt = datetime.datetime(1970, 1, 1) + datetime.timedelta(seconds=sec)
+    off = 0 if utc else tz
+    fields = {ord('Y'): b'%d' % dt.year, ord('y'): b'%02d' % (dt.year % 100), ord('m'): b'%02d' % dt.month, ord('d'): b'%02d' % dt.day,
+              ord('H'): b'%02d' % dt.hour, ord('M'): b'%02d' % dt.minute, ord('S'): b'%02d' % dt.second, ord('N'): b'%09d' % nsec,
+              ord('z'): (b'+' if off >= 0 else b'-') + b'%02d%02d' % (abs(off) // 3600, abs(off) // 60 % 60),
+              ord('Z'): b'UTC' if utc else zone_name.split(b'\x00')[0]}
+    out, i = b'', 0
+    while i < len(fmt):
+        if fmt[i] == 37 and i + 1 < len(fmt):
+            out += fields.get(fmt[i + 1], fmt[i:i + 2])
+            i += 2
+        else:
+            out += fmt[i:i + 1]
+            i += 1
+    return out
+
+
 def check_c17(ctx):
     ok = proof_step(ctx, 'BinlogVerif.Props.C17', C17_THEOREMS)
     exe = build_harness('reader_harness')
@@ -82,7 +112,30 @@ def check_c17(ctx):
     impl, model, mism = diff_streams(ctx, 'time', exe, lines)
     prop_fail, nontrivial = set(), set()
     for i, (fmt, cs, clock, exact) in enumerate(cases):
-        if i >= len(impl) or exact is None or fmt != FULLFMT:
+        if i >= len(impl) or exact is None:
+            continue
+        if fmt != FULLFMT:
+            # any other date format: every documented field against the oracle
+            syncNs, f, ticks, tz = exact
+            kv = parse_kv(impl[i])
+            ns_lo = syncNs + (ticks * 10 ** 9) // f if ticks >= 0 else syncNs - ((-ticks) * 10 ** 9 + f - 1) // f
+            okk = False
+            try:
+                u, l = bytes.fromhex(kv.get('utc', '')), bytes.fromhex(kv.get('local', ''))
+                for cand in (ns_lo, ns_lo + 1):
+                    if cand + tz * 10 ** 9 >= 0 and u == oracle_text(fmt, cand, tz, cs[4], True) and l == oracle_text(fmt, cand, tz, cs[4], False):
+                        okk = True
+                if ns_lo + tz * 10 ** 9 < 0:
+                    okk = True      # zone-shifted instants before the epoch are covered by the full format only
+            except ValueError:
+                pass
+            if not okk:
+                prop_fail.add(i)
+                ctx.violation('time-' + hashlib.sha256(lines[i].encode()).hexdigest()[:10],
+                              'C17: a date field does not denote sync + (clock - syncClock)/frequency (format %r)' % fmt.decode('latin1'),
+                              {'kind': 'input', 'input_line': lines[i], 'impl': impl[i], 'expected_utc': oracle_text(fmt, ns_lo, tz, cs[4], True).decode('latin1')})
+            else:
+                nontrivial.add(lines[i])
             continue
         syncNs, f, ticks, tz = exact
         kv = parse_kv(impl[i])
